@@ -8,7 +8,7 @@ sys.path.insert(0, HERE)
 from vlib.main import MODULES  # noqa
 
 # properties whose check has passed the integration gate (quiet at 3 seeds, mutants caught)
-READY = ['C01', 'C02', 'C03', 'C04', 'C05', 'C06', 'C07', 'C09', 'C10', 'C11', 'C12', 'C13', 'C14', 'C15', 'C16', 'C17',
+READY = ['C01', 'C02', 'C03', 'C04', 'C05', 'C06', 'C07', 'C08', 'C09', 'C10', 'C11', 'C12', 'C13', 'C14', 'C15', 'C16', 'C17',
          'C18', 'C19', 'C20']
 
 CHECKS = {
@@ -29,11 +29,18 @@ CHECKS = {
                      'in-process execution (thorough: sub-process differential).',
                 technique='enumerated product + Hypothesis, documented-table oracle'),
     'C03': dict(cat='exploration', ref='3 C03',
-                text='Generated valid cases with observable effects in every phase get one defective instruction '
-                     '(each defect class x phase x position); oracle: exit 65 with the documented identifier, no '
-                     'marker, no probe output, no sandbox; control run shows the effects exist without the defect.',
-                note='Effects are observed through marker files outside the sandbox and the sandbox root listing.',
-                technique='Hypothesis structured generation, no-effect invariant with control run'),
+                text='Valid carrier instructions from a grammar of every instruction of every phase (all 13 def '
+                     'types) with typed holes; 26 families of defect operators applied to one hole (undefined / '
+                     'later / self / wrongly typed symbol through chains, forbidden relativity by option or symbol '
+                     'chain, missing home file, ill-formed integer / regex / replacement, syntax errors), placed '
+                     'anywhere incl. the last line of [cleanup], included files and suite-supplied contents; started '
+                     'as run / --keep / --act / symbol / suite; oracle: exit 65 with the documented identifier, no '
+                     'marker, no probe output, no sandbox ever created, home/cwd/env unchanged; control run shows '
+                     'the effects exist without the defect; `symbol` on valid cases lists exactly the definitions.',
+                note='Effects are observed through marker files outside the sandbox, every mkdtemp call of the run '
+                     'and the sandbox root listing; the older template table (defect_has_no_effect) is kept.',
+                technique='Hypothesis grammar-based generation + deterministic enumeration of (operator, hole), '
+                          'no-effect invariant with control run'),
     'C04': dict(cat='fault_enumeration', ref='3 C04',
                 text='CLI cases with polluting instructions x every real ending x --keep, and the enumerated fault '
                      'plans of C01 with is_keep_sandbox in {False, True}: layout, result files, removal/preservation '
@@ -64,11 +71,16 @@ CHECKS = {
                 technique='exhaustive small documents + Hypothesis line-kind grammar + atheris, reference reader, '
                           'model-free source-text invariant, metamorphic phase permutation'),
     'C08': dict(cat='exploration', ref='3 C08',
-                text='Generated def/reference programs over all value types placed in any phases; reference '
-                     'interpreter of scoping, single definition and per-context type matrix decides '
-                     'VALIDATION_ERROR vs values seen by probes/files.',
-                note='Type matrix transcribed from the SYMBOL-REFERENCE paragraphs of the help pages.',
-                technique='Hypothesis program generation, reference interpreter'),
+                text='Exhaustive matrix 138 syntactic contexts x 13 defined types x chains to depth 4, exhaustive '
+                     'definition-phase x use-phase x order x file-order table (incl. included files, suite '
+                     'sections, self reference, execution that stops), exhaustive value combinations, random '
+                     'def/reference programs with at most one fault; reference interpreter of scoping, single '
+                     'definition and per-context type demands decides VALIDATION_ERROR (nothing executed) vs the '
+                     'values seen by probes / files / env; `exactly symbol` listings agree with the reference.',
+                note='Type demands transcribed from the SYMBOL-REFERENCE paragraphs of the help pages; strict '
+                     'contexts calibrated on the direct case; known finding KF-C08-2 identified by a defect model; '
+                     'coverage-guided campaign over the program builder (symbol_listing_fuzz).',
+                technique='exhaustive matrices + Hypothesis program generation + atheris, reference interpreter'),
     'C09': dict(cat='exploration', ref='3 C09',
                 text='Target strings rendered as differently quoted adjacent fragments with symbol references and '
                      'every kind of next token, through def/file/probe argv/list/here-doc hosts; denoted value known '
